@@ -660,7 +660,7 @@ Proof.
   destruct (expected l) as [w32 k q|k sb n|n d| |re im|t] eqn:Ex;
     try (destruct (spec_tag _ o) as [t'|] eqn:Es;
          [intros _; eapply spec_tag_sound; exact Es
-         |destruct (kf_name l); [destruct (existsb _ _)|]; discriminate]).
+         |destruct (kf_try l o); [|destruct (kf_try (as_inline l) o)]; discriminate]).
   discriminate.
 Qed.
 
@@ -807,8 +807,6 @@ Qed.
 (* E. the known findings: the faithful model predicts an observation    *)
 (*    that contradicts the property                                     *)
 (* ================================================================== *)
-Definition predicted (l : lit) (o : obs) : bool := existsb (fun p => pobs_match p o) (impl_preds l).
-
 Definition refutes (id : string) (l : lit) (o : obs) : Prop :=
   kf_name l = Some id /\ predicted l o = true /\ ~ C13_spec l o /\ judge_lit l o = v_kf id.
 
